@@ -25,7 +25,7 @@ LIVE = ['RUNNING', 'IDLE', 'WAITING', 'DELAYED', 'PAUSED']
 def gen_reverse(rng, p_cycle=0.0, p_defaults=0.12, p_bad_target=0.04):
     """{'tasks': [{'name', 'requires': [..], 'form': 'list'|'str'}], 'defaults': [..], 'target': name|None}
     The definition order of the tasks is independent of the dependency order."""
-    n = rng.randint(2, 8)
+    n = rng.choice([2, 3, 3, 4, 4, 5, 5, 6, 6, 7, 8])
     names = NAMES[:n]
     topo = names[:]
     rng.shuffle(topo)
@@ -40,7 +40,7 @@ def gen_reverse(rng, p_cycle=0.0, p_defaults=0.12, p_bad_target=0.04):
         elif shape == 'wide':
             k = rng.choice([0, 0, 1, 1, 2])
         else:
-            k = rng.choice([0, 1, 1, 2, 2, 3])
+            k = rng.choice([0, 1, 1, 1, 2, 2, 3])
         req[x] = rng.sample(earlier, min(k, len(earlier)))
     if shape == 'diamond' and n >= 4:
         a, b, c, d = topo[0], topo[1], topo[2], topo[3]
@@ -79,7 +79,7 @@ def gen_reverse(rng, p_cycle=0.0, p_defaults=0.12, p_bad_target=0.04):
             return 0
         return 1 + max([depth(y, seen + (x,)) for y in req[x] if y != x] or [0])
     target = rng.choice(names)
-    if rng.random() < 0.6:
+    if rng.random() < 0.7:
         deep = sorted(names, key=lambda x: -depth(x))
         target = deep[0] if rng.random() < 0.6 else rng.choice(deep[:max(1, n // 2)])
     if rng.random() < p_bad_target:
@@ -553,6 +553,12 @@ def run_engine_chunk(ctx, n_programs, p_cycle=0.06, p_err=None):
                 ctx.count('reverse', 'rejected:' + type(e).__name__)
                 continue
             raise
+
+
+def run_chunk(ctx, fn_programs, rows_per_program, engine_programs, p_err=None):
+    """both tiers in one worker (one boot of the engine)"""
+    run_fn_chunk(ctx, fn_programs, rows_per_program)
+    run_engine_chunk(ctx, engine_programs, p_err=p_err)
 
 
 def replay(ctx, rep):
